@@ -41,6 +41,23 @@ fn main() {
             println!("cargo:rustc-cfg=verif_persist_enc");
         }
     }
+    // two more codec functions private to bin targets, cut out the same way: the CLI client's
+    // `encode_command` (src/main.rs, encoder 7) and the shadow proxy's `parse_resp_command`
+    // (src/bin/shadow_proxy.rs, the proxy's command-name extractor)
+    for (cfg, rel, names, out) in [
+        ("verif_main_enc", "src/main.rs", &["encode_command"][..], "main_enc.rs"),
+        ("verif_proxy_dec", "src/bin/shadow_proxy.rs", &["parse_resp_command"][..], "proxy_dec.rs"),
+    ] {
+        println!("cargo:rustc-check-cfg=cfg({})", cfg);
+        let path = PathBuf::from(&dep).join(rel);
+        println!("cargo:rerun-if-changed={}", path.display());
+        if let Ok(src) = fs::read_to_string(&path) {
+            if let Some(text) = extract_fns(&src, names) {
+                fs::write(PathBuf::from(std::env::var("OUT_DIR").unwrap()).join(out), text).unwrap();
+                println!("cargo:rustc-cfg={}", cfg);
+            }
+        }
+    }
     let file = PathBuf::from(&dep).join("src/production/sharded_actor.rs");
     println!("cargo:rerun-if-changed={}", file.display());
     println!("cargo:rerun-if-changed=Cargo.toml");
